@@ -25,8 +25,11 @@ Proved here (about the model `Model/TextReader.lean`):
   outcome, final position = |data| at a clean end) or ends in the error `BufferFull` after a PREFIX of the from-slice
   tokens; for cap > |data| it always equals it.
 
+* `C07_full_only_if_unfit`, `C07_stream_eq_slice_fits`: with `need data ≤ cap` (the decidable fit predicate) the run
+  never ends in `BufferFull`, hence streamed = from-slice for every capacity that fits.
+
 Not proved (decided by the correspondence run + implementation oracle only), statement kept at the end:
-* `C07_full_only_if_unfit`: `BufferFull` occurs only when some token / comment / look-ahead does not fit.
+* `C07_unfit_is_full`: the converse, a buffer smaller than `need` always ends in `BufferFull`.
 -/
 namespace Jomini.Props.C07
 open Jomini Jomini.TextReader Jomini.TextReader.Spec Jomini.TextReader.Swar
@@ -312,16 +315,55 @@ theorem C07_two_schedules_agree (data : Bytes) (cap1 cap2 : Nat) (sched1 sched2 
   have b := C07_stream_eq_slice_large_buffer data cap2 sched2 h2 hw2 hn2
   exact ⟨a.1.trans b.1.symm, a.2.1.trans b.2.1.symm⟩
 
-/-
-Not proved; statement kept as the obligation (exercised on the real code by the L3 oracle `full-although-fits` of
-harness/src/props/c07.rs, which computes `need` with an independent byte-at-a-time lexer):
+/-! ### BufferFull only when something does not fit -/
 
-theorem C07_full_only_if_unfit (data cap sched) (hfit : need data ≤ cap) (hw : WfSched sched) (hnf : NoFaults sched) :
-    (streamTokens cap sched data).out ≠ .err .full
-  -- `need data` = the largest of: comment length + 1, unquoted length + 1, quoted content length + 1, `@[..]` length,
-  -- 2 for an operator, min (|data| + 1) 3 if the input starts with 0xEF.
-  -- With it, C07_stream_eq_slice gives the equality for every capacity that fits; today it is proved for cap > |data|
-  -- (`C07_stream_eq_slice_large_buffer`), and for every other capacity in the disjunctive form of `C07_stream_eq_slice`.
+/-- **`C07_full_only_if_unfit`.**  `Spec.need data` is the fit predicate, a decidable (computable) function of the
+input: the largest, over every token / comment / blank run of `data`, of the bytes that must be in the buffer at once
+(comment length + 1, unquoted length + 1, quoted content + 1, `@[…]` length, 2 for an operator, up to 3 for a leading
+`0xEF`; at least 1).  If `need data ≤ cap`, the streamed run never ends in `BufferFull` — for every read schedule
+(read sizes ≥ 1; fault steps allowed).  Contrapositive: `BufferFull` occurs only when some token or comment, with the
+look-ahead byte it needs, does not fit the buffer.
+
+(The converse — a buffer smaller than `need` always yields `BufferFull` — is not proved; on the real code the op `tneed`
+checks it for `cap = need − 1`, oracle `need-not-tight`, and the same op ties the model's `need` to the harness's
+independent byte-at-a-time computation.) -/
+theorem C07_full_only_if_unfit (data : Bytes) (cap : Nat) (sched : List Step) (hw : WfSched sched)
+    (hfit : need data ≤ cap) : (streamTokens cap sched data).out ≠ .err .full := by
+  have hcap : 0 < cap := by unfold need at hfit; omega
+  obtain ⟨h1, _⟩ := C07_start_related cap sched data hcap hw
+  refine lexAll_no_full (fuelFor data) _ 0 .unknown data _ [] (Or.inl h1) ?_ (by simp [fuelFor]; omega)
+  unfold need at hfit
+  simp only [fromReader]
+  omega
+
+example : need [97, 98, 99, 61, 34, 120, 32, 121, 34, 10, 35, 99, 111, 109, 109, 101, 110, 116, 10, 64, 91, 97, 93] = 9 := by
+  decide +kernel
+example : fits 9 [97, 98, 99, 61, 34, 120, 32, 121, 34, 10, 35, 99, 111, 109, 109, 101, 110, 116, 10, 64, 91, 97, 93] = true := by
+  decide +kernel
+
+/-- **C07, final form.**  For every input, every fault-free read schedule and every buffer that can hold the longest
+token / comment with its look-ahead (`need data ≤ cap`), the streamed token sequence equals the from-slice token
+sequence, tokenization ends the same way (clean end or the same error), and at a clean end the final position equals the
+input length. -/
+theorem C07_stream_eq_slice_fits (data : Bytes) (cap : Nat) (sched : List Step) (hw : WfSched sched) (hnf : NoFaults sched)
+    (hfit : need data ≤ cap) :
+    (streamTokens cap sched data).toks = (sliceTokens data).toks ∧
+    (streamTokens cap sched data).out = (sliceTokens data).out ∧
+    ((streamTokens cap sched data).out = .end_ →
+      (streamTokens cap sched data).final.position = data.length ∧ (sliceTokens data).final.position = data.length) := by
+  have hcap : 0 < cap := by unfold need at hfit; omega
+  rcases C07_stream_eq_slice data cap sched hcap hw hnf with ⟨a, _, _⟩ | h
+  · exact absurd a (C07_full_only_if_unfit data cap sched hw hfit)
+  · exact h
+
+/-
+Not proved; statement kept as the obligation (exercised on the real code by the op `tneed`, oracle `need-not-tight`, and
+by the oracle `overflow-not-error`):
+
+theorem C07_unfit_is_full (data cap sched) (hcap : 0 < cap) (h : cap < need data) (hw : WfSched sched) (hnf : NoFaults sched) :
+    (streamTokens cap sched data).out = .err .full
+  -- the converse of C07_full_only_if_unfit: with too small a buffer the run always ends in BufferFull
+  -- (C07_overflow_is_error already gives: whenever the result differs from the slice result it is BufferFull after a prefix).
 -/
 
 end Jomini.Props.C07
